@@ -1,4 +1,343 @@
 import Compute.Model.Interp
+import Compute.Lemmas.C16
+import Mathlib.Algebra.Order.Field.Basic
+import Mathlib.Algebra.Order.Field.Rat
+import Mathlib.Tactic.Ring
+import Mathlib.Tactic.Linarith
+import Mathlib.Tactic.FieldSimp
+import Mathlib.Tactic.NormNum
+/-
+C16 — linear interpolation reproduces knots and honours the out-of-range mode.
+
+Theorems about the model of `src/functions/interpolate.rs` (`Compute/Model/Interp.lean`) over an arbitrary
+linearly ordered field, for strictly increasing abscissae, `n ≥ 2` knots and equally many ordinates (`Knots x y`),
+every target and every mode.  `interpOne` is the body of the loop over the targets; `interpAll_eq_some_iff`,
+`interpAll_eq_none_iff` and `unchecked_eq_some_iff` lift the per-target statements to the whole call.
+
+* `scan_brackets` (+ `bracket_unique`, in `Lemmas/C16.lean`): the scan returns the unique bracketing index.
+* `interp_knot`: at a knot the result is exactly the knot's ordinate.
+* `interp_inside`, `lineAt_between`: inside the range the result is the value of the line through the two
+  neighbouring knots, hence between their ordinates.
+* `interp_left_*`, `interp_right_*`: outside the range: panic / the left resp. right fill value / the extension of
+  the first resp. last segment's line.  (`interp_right_*` are the statements that failed before the repair F28.)
+* `checked_rejects_length`, `checked_rejects_unsorted`, `checked_eq_unchecked`, `panic_mode_rejects`.
+-/
 namespace Cv.C16
-theorem placeholder : scanIdx (3 : Nat) [1, 2, 5, 7] = 2 := by decide
+open Cv
+
+section main
+variable {α : Type} [Field α] [LinearOrder α] [IsStrictOrderedRing α] [Inhabited α]
+
+theorem lineAt_left (x y : List α) (j : Nat) : lineAt x y j x[j - 1]! = y[j - 1]! := by
+  unfold lineAt; rw [sub_self, zero_div, zero_mul, add_zero]
+
+theorem lineAt_right (x y : List α) (j : Nat) (hne : x[j - 1]! ≠ x[j]!) : lineAt x y j x[j]! = y[j]! := by
+  unfold lineAt
+  have : x[j]! - x[j - 1]! ≠ 0 := sub_ne_zero.2 (Ne.symm hne)
+  rw [div_self this]; ring
+
+theorem Knots.bang {x y : List α} (_h : Knots x y) {i : Nat} (hi : i < x.length) : x[i]! = x[i] :=
+  getElem!_pos x i hi
+
+theorem Knots.ybang {x y : List α} (h : Knots x y) {i : Nat} (hi : i < x.length) :
+    y[i]! = y[i]'(by have := h.len; omega) :=
+  getElem!_pos y i (by have := h.len; omega)
+
+/-- **interp_inside (value).** For `x_{i-1} ≤ t ≤ x_i` the result is the value at `t` of the straight line through
+the knots `i-1` and `i` — for every mode. -/
+theorem interp_inside {x y : List α} (h : Knots x y) (mode : ExtrapMode α) (t : α) (i : Nat)
+    (hi0 : 1 ≤ i) (hi : i < x.length) (a1 : x[i - 1] ≤ t) (a2 : t ≤ x[i]) :
+    interpOne x y mode t = some (lineAt x y i t) := by
+  have h2 := h.two
+  have hn : x.length ≠ 0 := by omega
+  have hx0 : x[0] ≤ t := le_trans (h.le (Nat.zero_le _) (by omega)) a1
+  have hlast : t ≤ x[x.length - 1] := le_trans a2 (h.le (by omega) (by omega))
+  have hr : ¬ x[x.length - 1]! < t := by rw [h.bang (by omega)]; exact not_lt.2 hlast
+  rcases lt_or_eq_of_le a2 with hlt | heq
+  · -- t < x_i : the scan finds i
+    have hl : t < x[x.length - 1] := lt_of_lt_of_le hlt (h.le (by omega) (by omega))
+    obtain ⟨p0, p1, b1, b2⟩ := scan_brackets h t hx0 hl
+    have : idxOf x t = i := bracket_unique h t _ _ p0 p1 hi0 hi b1 b2 a1 hlt
+    rw [interpOne_in x y mode t hn (by omega) hr, this]
+  · rcases Nat.lt_or_ge i (x.length - 1) with hil | hil
+    · -- t = x_i, not the last knot: the scan finds i+1, both segments give y_i
+      have hl : t < x[x.length - 1] := by rw [heq]; exact h.lt (by omega) (by omega)
+      obtain ⟨p0, p1, b1, b2⟩ := scan_brackets h t hx0 hl
+      have : idxOf x t = i + 1 := bracket_unique h t _ _ p0 p1 (by omega) (by omega) b1 b2
+        (by simp only [Nat.add_sub_cancel]; exact heq.ge) (by rw [heq]; exact h.lt (by omega) (by omega))
+      rw [interpOne_in x y mode t hn (by omega) hr, this]
+      have e1 : t = x[i + 1 - 1]! := by rw [h.bang (by omega)]; simpa using heq
+      have e2 : t = x[i]! := by rw [h.bang hi]; exact heq
+      have hne : x[i - 1]! ≠ x[i]! := by
+        rw [h.bang hi, h.bang (by omega)]; exact (h.lt (by omega) hi).ne
+      conv_lhs => rw [e1, lineAt_left]
+      conv_rhs => rw [e2, lineAt_right x y i hne]
+      simp
+    · -- t = x_{n-1}
+      have hin : i = x.length - 1 := by omega
+      have : idxOf x t = x.length - 1 := idxOf_right h t (by rw [heq]; simp [hin])
+      rw [interpOne_in x y mode t hn (by omega) hr, this, hin]
+
+/-- **interp_inside (between the neighbouring ordinates).** -/
+theorem lineAt_between {x y : List α} (h : Knots x y) (t : α) (i : Nat)
+    (hi0 : 1 ≤ i) (hi : i < x.length) (a1 : x[i - 1] ≤ t) (a2 : t ≤ x[i]) :
+    min y[i - 1]! y[i]! ≤ lineAt x y i t ∧ lineAt x y i t ≤ max y[i - 1]! y[i]! := by
+  unfold lineAt
+  rw [h.bang hi, h.bang (by omega : i - 1 < x.length)]
+  have hd : 0 < x[i] - x[i - 1] := sub_pos.2 (h.lt (by omega) hi)
+  set r := (t - x[i - 1]) / (x[i] - x[i - 1]) with hr
+  have r0 : 0 ≤ r := div_nonneg (sub_nonneg.2 a1) hd.le
+  have r1 : r ≤ 1 := by rw [hr, div_le_one hd]; linarith
+  rcases le_total y[i - 1]! y[i]! with hy | hy
+  · rw [min_eq_left hy, max_eq_right hy]
+    have d0 : 0 ≤ y[i]! - y[i - 1]! := sub_nonneg.2 hy
+    constructor
+    · have := mul_nonneg r0 d0; linarith
+    · have := mul_le_of_le_one_left d0 r1; linarith
+  · rw [min_eq_right hy, max_eq_left hy]
+    have d0 : 0 ≤ y[i - 1]! - y[i]! := sub_nonneg.2 hy
+    constructor
+    · have := mul_le_of_le_one_left d0 r1
+      have e : r * (y[i]! - y[i - 1]!) = -(r * (y[i - 1]! - y[i]!)) := by ring
+      rw [e]; linarith
+    · have := mul_nonneg r0 d0
+      have e : r * (y[i]! - y[i - 1]!) = -(r * (y[i - 1]! - y[i]!)) := by ring
+      rw [e]; linarith
+
+/-- **interp_knot.** At a knot the result is exactly that knot's ordinate — for every mode. -/
+theorem interp_knot {x y : List α} (h : Knots x y) (mode : ExtrapMode α) (k : Nat) (hk : k < x.length) :
+    interpOne x y mode x[k] = some (y[k]'(by have := h.len; omega)) := by
+  have h2 := h.two
+  rcases Nat.eq_zero_or_pos k with hz | hpos
+  · subst hz
+    rw [interp_inside h mode x[0] 1 (le_refl _) (by omega) (by simp) (h.le (by omega) (by omega))]
+    have e : x[0] = x[1 - 1]! := by rw [h.bang (by omega)]
+    conv_lhs => rw [e, lineAt_left]
+    simp only [Nat.sub_self]; rw [h.ybang (by omega)]
+  · rw [interp_inside h mode x[k] k hpos hk (h.le (by omega) hk) (le_refl _)]
+    have e : x[k] = x[k]! := (h.bang hk).symm
+    have hne : x[k - 1]! ≠ x[k]! := by
+      rw [h.bang hk, h.bang (by omega)]; exact (h.lt (by omega) hk).ne
+    conv_lhs => rw [e, lineAt_right x y k hne]
+    rw [h.ybang hk]
+
+/-! ### Left of the data -/
+
+theorem interpOne_out (x y : List α) (mode : ExtrapMode α) (t : α) (hn : x.length ≠ 0)
+    (hc : idxOf x t = 0 ∨ x[x.length - 1]! < t) :
+    interpOne x y mode t =
+      match mode with
+      | .panic => none
+      | .fill l r => if idxOf x t = 0 then some l else some r
+      | .extrapolate =>
+        if idxOf x t = 0 then
+          if x.length < 2 then none
+          else some ((-((y[1]! - y[0]!) / (x[1]! - x[0]!))) * (x[0]! - t) + y[0]!)
+        else some ((y[x.length - 1]! - y[x.length - 2]!) / (x[x.length - 1]! - x[x.length - 2]!)
+              * (t - x[x.length - 1]!) + y[x.length - 1]!) := by
+  unfold interpOne
+  simp only [hn, if_false]
+  rw [if_pos (by simpa [idxOf] using hc)]
+  rfl
+
+theorem interp_left_panic {x y : List α} (h : Knots x y) (t : α) (ht : t < x[0]'(by have := h.two; omega)) :
+    interpOne x y .panic t = none := by
+  rw [interpOne_out x y _ t (by have := h.two; omega) (Or.inl (idxOf_left h t ht))]
+
+theorem interp_left_fill {x y : List α} (h : Knots x y) (l r t : α) (ht : t < x[0]'(by have := h.two; omega)) :
+    interpOne x y (.fill l r) t = some l := by
+  rw [interpOne_out x y _ t (by have := h.two; omega) (Or.inl (idxOf_left h t ht))]
+  simp [idxOf_left h t ht]
+
+/-- Left of the data the extrapolate mode continues the line of the first segment. -/
+theorem interp_left_extrapolate {x y : List α} (h : Knots x y) (t : α)
+    (ht : t < x[0]'(by have := h.two; omega)) :
+    interpOne x y .extrapolate t = some (lineAt x y 1 t) := by
+  have h2 := h.two
+  rw [interpOne_out x y _ t (by omega) (Or.inl (idxOf_left h t ht))]
+  simp only [idxOf_left h t ht, if_true, if_neg (by omega : ¬ x.length < 2)]
+  unfold lineAt
+  have hd : x[1]! - x[0]! ≠ 0 := by
+    rw [h.bang (by omega), h.bang (by omega)]; exact sub_ne_zero.2 (h.lt (by omega) (by omega)).ne'
+  simp only [Nat.sub_self]
+  congr 1
+  field_simp
+  ring
+
+/-! ### Right of the data -/
+
+theorem right_cond {x y : List α} (h : Knots x y) (t : α) (ht : x[x.length - 1]'(by have := h.two; omega) < t) :
+    idxOf x t ≠ 0 ∧ x[x.length - 1]! < t := by
+  have h2 := h.two
+  refine ⟨?_, by rw [h.bang (by omega)]; exact ht⟩
+  rw [idxOf_right h t ht.le]; omega
+
+theorem interp_right_panic {x y : List α} (h : Knots x y) (t : α)
+    (ht : x[x.length - 1]'(by have := h.two; omega) < t) : interpOne x y .panic t = none := by
+  rw [interpOne_out x y _ t (by have := h.two; omega) (Or.inr (right_cond h t ht).2)]
+
+theorem interp_right_fill {x y : List α} (h : Knots x y) (l r t : α)
+    (ht : x[x.length - 1]'(by have := h.two; omega) < t) : interpOne x y (.fill l r) t = some r := by
+  rw [interpOne_out x y _ t (by have := h.two; omega) (Or.inr (right_cond h t ht).2)]
+  simp [(right_cond h t ht).1]
+
+/-- Right of the data the extrapolate mode continues the line of the last segment. -/
+theorem interp_right_extrapolate {x y : List α} (h : Knots x y) (t : α)
+    (ht : x[x.length - 1]'(by have := h.two; omega) < t) :
+    interpOne x y .extrapolate t = some (lineAt x y (x.length - 1) t) := by
+  have h2 := h.two
+  rw [interpOne_out x y _ t (by omega) (Or.inr (right_cond h t ht).2)]
+  simp only [if_neg (right_cond h t ht).1]
+  unfold lineAt
+  have e : x.length - 1 - 1 = x.length - 2 := by omega
+  rw [e]
+  have hd : x[x.length - 1]! - x[x.length - 2]! ≠ 0 := by
+    rw [h.bang (by omega), h.bang (by omega)]; exact sub_ne_zero.2 (h.lt (by omega) (by omega)).ne'
+  congr 1
+  field_simp
+  ring
+
+/-! ### The loop over the targets and the checked wrapper -/
+
+theorem interpAll_eq_some_iff (x y : List α) (mode : ExtrapMode α) (ts vs : List α) :
+    interpAll x y mode ts = some vs ↔ ts.map (interpOne x y mode) = vs.map some := by
+  induction ts generalizing vs with
+  | nil => cases vs <;> simp [interpAll]
+  | cons t r ih =>
+    simp only [interpAll, List.map_cons]
+    cases h1 : interpOne x y mode t with
+    | none => cases vs <;> simp
+    | some v =>
+      cases h2 : interpAll x y mode r with
+      | none =>
+        cases vs with
+        | nil => simp
+        | cons w ws =>
+          simp only [List.map_cons, List.cons.injEq, reduceCtorEq, false_iff, not_and]
+          intro _ hc
+          have := (ih ws).2 hc
+          rw [h2] at this; cases this
+      | some us =>
+        have := (ih us).1 h2
+        cases vs with
+        | nil => simp
+        | cons w ws =>
+          simp only [List.map_cons, List.cons.injEq, Option.some.injEq]
+          constructor
+          · rintro ⟨rfl, rfl⟩; exact ⟨rfl, this⟩
+          · rintro ⟨rfl, hc⟩
+            refine ⟨rfl, ?_⟩
+            have := (ih ws).2 hc
+            rw [h2] at this; cases this; rfl
+
+theorem interpAll_eq_none_iff (x y : List α) (mode : ExtrapMode α) (ts : List α) :
+    interpAll x y mode ts = none ↔ ∃ t ∈ ts, interpOne x y mode t = none := by
+  induction ts with
+  | nil => simp [interpAll]
+  | cons t r ih =>
+    simp only [interpAll, List.mem_cons, exists_eq_or_imp]
+    cases h1 : interpOne x y mode t with
+    | none => simp
+    | some v =>
+      cases h2 : interpAll x y mode r with
+      | none => simp only [reduceCtorEq, false_or, true_iff]; exact ih.1 h2
+      | some us =>
+        simp only [reduceCtorEq, false_or, false_iff]
+        intro hc; rw [ih.2 hc] at h2; cases h2
+
+theorem sortedOk_iff (x : List α) :
+    sortedOk x = true ↔ ∀ i (hi : i + 1 < x.length), x[i] ≤ x[i + 1] := by
+  induction x with
+  | nil => simp [sortedOk]
+  | cons a r ih =>
+    cases r with
+    | nil => simp [sortedOk]
+    | cons b r' =>
+      simp only [sortedOk]
+      by_cases hba : b - a < 0
+      · rw [if_pos hba]
+        simp only [Bool.false_eq_true, false_iff, not_forall]
+        exact ⟨0, by simp, by simpa using sub_neg.1 hba⟩
+      · rw [if_neg hba, ih]
+        have hab : a ≤ b := by rw [sub_neg] at hba; exact not_lt.1 hba
+        constructor
+        · intro hh i hi
+          cases i with
+          | zero => simpa using hab
+          | succ i =>
+            have := hh i (by simpa using hi)
+            simp only [List.getElem_cons_succ] at this ⊢; exact this
+        · intro hh i hi
+          have := hh (i + 1) (by simpa using hi)
+          simpa using this
+
+/-- **checked_rejects (lengths).** Mismatched lengths are rejected (by both variants). -/
+theorem checked_rejects_length (x y ts : List α) (mode : ExtrapMode α) (h : x.length ≠ y.length) :
+    interpChecked x y ts mode = none ∧ interpUnchecked x y ts mode = none := by
+  unfold interpChecked interpUnchecked; simp [h]
+
+/-- **checked_rejects (order).** A descending step anywhere in the abscissae is rejected by the checked variant. -/
+theorem checked_rejects_unsorted (x y ts : List α) (mode : ExtrapMode α)
+    (h : ∃ i, ∃ hi : i + 1 < x.length, x[i + 1] < x[i]) : interpChecked x y ts mode = none := by
+  obtain ⟨i, hi, hlt⟩ := h
+  have : ¬ sortedOk x = true := by
+    rw [sortedOk_iff]; intro hh; exact absurd hlt (not_lt.2 (hh i hi))
+  unfold interpChecked
+  split
+  · rfl
+  · split
+    · rfl
+    · simp [this]
+
+/-- On admissible input the checked variant is the unchecked one. -/
+theorem checked_eq_unchecked {x y : List α} (h : Knots x y) (ts : List α) (mode : ExtrapMode α) :
+    interpChecked x y ts mode = interpUnchecked x y ts mode := by
+  have h2 := h.two
+  have hs : sortedOk x = true := by
+    rw [sortedOk_iff]; intro i hi; exact (h.lt (Nat.lt_succ_self i) hi).le
+  unfold interpChecked
+  rw [if_neg (not_not.2 h.len), if_neg (by omega)]
+  simp [hs]
+
+/-- Whole-call form: on admissible input with all targets inside `[x₀, x_{n-1}]` or a non-panicking mode the call
+returns one value per target, each given by `interpOne`. -/
+theorem unchecked_eq_some_iff {x y : List α} (h : Knots x y) (ts vs : List α) (mode : ExtrapMode α) :
+    interpUnchecked x y ts mode = some vs ↔ ts.map (interpOne x y mode) = vs.map some := by
+  unfold interpUnchecked
+  simp [h.len, interpAll_eq_some_iff]
+
+/-- The panic mode aborts the whole call as soon as one target lies outside the data range. -/
+theorem panic_mode_rejects {x y : List α} (h : Knots x y) (ts : List α) (t : α) (ht : t ∈ ts)
+    (hout : t < x[0]'(by have := h.two; omega) ∨ x[x.length - 1]'(by have := h.two; omega) < t) :
+    interpChecked x y ts .panic = none := by
+  rw [checked_eq_unchecked h]
+  unfold interpUnchecked
+  simp only [h.len, ne_eq, not_true_eq_false, if_false]
+  rw [interpAll_eq_none_iff]
+  refine ⟨t, ht, ?_⟩
+  rcases hout with hl | hr
+  · exact interp_left_panic h t hl
+  · exact interp_right_panic h t hr
+
+end main
+
+/-! ### Non-vacuity: the hypotheses are satisfiable, and the witness of the repaired defect F28 -/
+
+theorem knots_example : Knots ([0, 1, 2] : List ℚ) [0, 10, 20] :=
+  ⟨rfl, by decide, by decide⟩
+
+example : interpOne ([0, 1, 2] : List ℚ) [0, 10, 20] (.fill (-1) (-2)) 3 = some (-2) :=
+  interp_right_fill knots_example _ _ _ (by decide)
+example : interpOne ([0, 1, 2] : List ℚ) [0, 10, 20] .panic 3 = none :=
+  interp_right_panic knots_example _ (by decide)
+example : interpOne ([0, 1, 2] : List ℚ) [0, 10, 20] .extrapolate 3 = some 30 := by
+  rw [interp_right_extrapolate knots_example _ (by decide)]; decide +kernel
+example : interpOne ([0, 1, 2] : List ℚ) [0, 10, 20] .panic 1 = some 10 :=
+  interp_knot knots_example .panic 1 (by decide)
+example : interpOne ([0, 1, 2] : List ℚ) [0, 10, 20] .panic (1 / 2) = some 5 := by
+  rw [interp_inside knots_example .panic (1 / 2) 1 (by decide) (by decide) (by decide +kernel) (by decide +kernel)]
+  decide +kernel
+example : interpChecked ([0, 2, 1] : List ℚ) [0, 10, 20] [1] .extrapolate = none :=
+  checked_rejects_unsorted _ _ _ _ ⟨1, by decide, by decide⟩
+
 end Cv.C16
